@@ -37,6 +37,31 @@ def run(ctx, prop, parts_quick, parts_thorough, sample_quick=None, modes=(16, 32
     skipped = [c for c in cells if c["mn"] not in ops]
     cells = [c for c in cells if c["mn"] in ops]
     R = insflow.run_cells(ctx, {b: cells for b in modes}, batch=batch)
+    if prop == "C02":
+        # the same effective addresses with the displacement written as an EQU constant; >300 EQU references in one run
+        memcells = [c for c in cells if any(o["t"] == "m" and o.get("hd") and o.get("d", 0) > 0 and (o.get("b", -1) != -1 or o.get("x", -1) != -1 or True) for o in c["ops"])]
+        memcells.sort(key=lambda c: json.dumps(c, sort_keys=True))
+        memcells = [c for c in memcells if not any(o["t"] == "m" and (o.get("x", -1) != -1 or (o.get("aw", 0) == 0 and o.get("d", 0) > 65535)) for o in c["ops"])]     # base-only / absolute shapes
+        memcells = memcells[::max(1, len(memcells) // 330)]          # a fixed subset (not seed dependent)
+        for bits in modes:
+            st = [{"k": "org", "v": 0x7c00}] + ([{"k": "bits", "v": 32}] if bits == 32 else [])
+            sel = memcells[:330]
+            vals = sorted({o["d"] for c in sel for o in c["ops"] if o["t"] == "m"})
+            for v in vals:
+                st.append({"k": "equ", "nm": "DQ%d" % vals.index(v), "e": {"o": "n", "v": v, "sty": "h"}})
+            for j, c in enumerate(sel):
+                c2 = json.loads(json.dumps(c))
+                for o in c2["ops"]:
+                    if o["t"] == "m" and o.get("d", 0) in vals and o.get("hd"):
+                        o["lab"] = "DQ%d" % vals.index(o["d"])
+                        o["d"] = 0
+                        o["hd"] = 0
+                st.append(c2)
+                if j % 10 == 9:
+                    st.append({"k": "label", "nm": "e%d" % j})
+            cid = R.add(st)
+        jobs = [{"id": c["id"], "src": c["src"]} for c in R.cases if c["id"] not in R.results]
+        R.results.update(ctx.run_jobs(jobs))
     ver = ctx.validate("Trace_Asm", R.traces())
     F = Findings()
     viol, known, other = flow.classify(ctx, ver, R, F, prop)
